@@ -7,7 +7,9 @@ From Coq Require Import ZArith QArith List Bool String.
 From Pandora Require Import Model.Json Model.JsonText Model.Checker Model.Pipeline Model.Save Model.SavedCfg
   Model.SavedFile Spec.Save
   Proofs.CheckerP Proofs.SaveP Proofs.SavedCfgP Proofs.RewriteP Proofs.IndicatorP Proofs.JsonP Proofs.GuardP
-  Proofs.JsonTextP Proofs.SavedFileP Gen.SavePlan Gen.Schemas.
+  Proofs.JsonTextP Proofs.SavedFileP Gen.SavePlan Gen.Schemas
+  Model.SavePrims Model.SaveMain Proofs.SaveMainP Proofs.SaveGenP.
+From Pandora Require Gen.SaveFns.
 Import ListNotations.
 
 (* Per-run obligations on the data regenerated from /repo: the write_data_array calls of
@@ -350,6 +352,187 @@ Example C19_file_example :
   end.
 Proof. vm_compute. repeat split. Qed.
 
+
+(* ------------------------------------------------------------------------------------------
+   T-gen tie of the FUNCTION BODIES.  Gen/SaveFns.v is the statement-by-statement translation (translator/
+   gen_save_fns.py, fail closed, regenerated at every run) of common.write_data_array, common.save_results,
+   common.save_config, output_tree_design.get_out_dir / get_out_file_path, check_configuration.read_config_file and
+   pandora.main into terms over Model/SavePrims.v (semantics of the rasterio / numpy / xarray / json / dict
+   constructs).  Per-run obligations: each generated function computes what the hand-written model computes, for
+   ALL inputs; the theorems above are then restated on the generated functions. *)
+Section GenFns.
+  Variable rnd : Q -> Q.
+  Variables C T : Type.
+
+  (* write_data_array: the 2-D branch (one band), the 3-D branch (count = depth, the loop
+     `for dsp in range(1, depth + 1): write(data[:, :, dsp - 1], dsp)`, descriptions when band_names is given), the
+     dtype and crs / transform handed to rasterio.open, width / height = the shape of the array -- on every
+     rectangular array of 2 or 3 dimensions, any size, the file closed is the one of Model/Save.v. *)
+  Theorem C19_gen_write_data_array : forall a path t names crs tr,
+    arr_wf (xa_arr a) -> names_wf (xa_arr a) names ->
+    SaveFns.write_data_array rnd C T a path t names crs tr
+    = Some [FTif (Save.write_data_array rnd (C * T) (xa_arr a) path t names (crs, tr))].
+  Proof. exact (gen_write_data_array rnd C T). Qed.
+
+  (* save_results: which variable of which dataset goes to which file with which dtype, band names and WHOSE crs /
+     transform, under which guards = the call table of Gen/SavePlan.v interpreted by Model/Save.v, every file under
+     <output>; for every pair of product datasets (rectangular arrays). *)
+  Theorem C19_gen_save_results : forall l right output,
+    product_rect C T l -> right_rect C T right ->
+    SaveFns.save_results rnd C T (Some l) right output
+    = match run_calls rnd (C * T) otd l right save_calls with
+      | Some fs => Some (map (fun f => FTif (in_dir C T output f)) fs)
+      | None => None
+      end.
+  Proof. exact (gen_save_results rnd C T). Qed.
+
+  (* save_config: one text file, <output>/<OTD path of config.json>, holding json.dump(cfg, indent=2) of the
+     dictionary GIVEN (no other keyword, no conversion of the values) *)
+  Theorem C19_gen_save_config : forall output cfg,
+    SaveFns.save_config C T output cfg
+    = match out_path otd "config.json" with
+      | Some p => Some [FText (path_join output p) (print cfg)]
+      | None => None
+      end.
+  Proof. exact (gen_save_config C T). Qed.
+
+  (* main: json.load of the file, check_conf, the datasets (the right interval derived on a COPY of the right input
+     section), run, save_results on what run returned, cfg["margins"] = machine.margins.to_dict() on the cfg that
+     check_conf returned and run wrote into, save_config of THAT dictionary -- for every environment (any
+     check_conf, create_dataset_from_inputs, check_datasets, run, margins, file system) whose run returns datasets. *)
+  Theorem C19_gen_main : forall (M IMG : Type) (E : env C T M IMG) cfg_path output verbose,
+    env_products_ok C T M IMG E ->
+    SaveFns.main rnd C T M IMG E cfg_path output verbose
+    = main_flow rnd C T M IMG otd save_calls E cfg_path output.
+  Proof. exact (gen_main rnd C T). Qed.
+
+  Variable f32 : Q -> Prop.
+  Hypothesis rnd_id : forall q, f32 q -> rnd q = q.
+
+  (* C19_files_iff_products, on the generated save_results: for every pair of product datasets (as above, arrays
+     rectangular) and every output directory the translated body raises nothing and closes exactly the files
+     <output>/f, f ranging over a set of files that meets the specification of the first sentence. *)
+  Theorem C19_files_iff_products_gen : forall left right output,
+    product_ok (C * T) f32 left -> right_ok f32 (C * T) right -> product_rect C T left -> right_rect C T right ->
+    exists fs, SaveFns.save_results rnd C T (Some left) right output
+               = Some (map (fun f => FTif (in_dir C T output f)) fs)
+               /\ saved_ok (C * T) left right fs.
+  Proof.
+    intros left right output PL PR RL RR.
+    destruct (C19_files_iff_products rnd f32 rnd_id (C * T) left right PL PR) as [fs [E S]].
+    exists fs. split; [|exact S]. rewrite (gen_save_results rnd C T left right output RL RR).
+    unfold save_results_model. rewrite E. reflexivity.
+  Qed.
+
+  (* C19_band_bookkeeping, on the generated write_data_array: a cube with n indicators gives one file with n bands,
+     descriptions = the indicator names in order, band k at (r, c) = cube[r][c][k], float32, the crs / transform
+     given. *)
+  Theorem C19_band_bookkeeping_gen : forall path names cube crs tr,
+    cube_wf names cube -> rect2 cube -> all3 (float_px_ok f32) cube ->
+    exists f, SaveFns.write_data_array rnd C T (mkXda (A3 (List.length names) cube) (Some names)) path F32
+                                       (Some names) crs tr = Some [FTif f]
+              /\ conf_ok (C * T) f names cube (crs, tr).
+  Proof.
+    intros path names cube crs tr W R A. eexists. split.
+    - apply (gen_write_data_array rnd C T); cbn; [split; [exact R|exact W]|reflexivity].
+    - exact (conf_written rnd f32 rnd_id (C * T) path names cube (crs, tr) W A).
+  Qed.
+End GenFns.
+
+Section GenMain.
+  Variable rnd : Q -> Q.
+  Variables C T M IMG : Type.
+  Variable orc : string -> jv -> option bool.
+  Variable grid_ok : jv -> jv -> bool.
+  Variable images_ok : dict -> bool.
+  Variable bands_of : jv -> list jv.
+
+  Notation check_conf := (full_check gen_defs orc grid_ok images_ok bands_of classes interpolation_methods).
+  Notation gmain := (SaveFns.main rnd C T M IMG).
+  (* the environment: run returns datasets; check_conf is the modelled one; the run writes into cfg what
+     Model/SavedCfg.v run_rewrites says (both compared with the real code on every case of the correspondence) *)
+  Definition env_ok (E : env C T M IMG) : Prop :=
+    env_products_ok C T M IMG E
+    /\ env_cfg_ok C T M IMG gen_defs orc grid_ok images_ok bands_of classes interpolation_methods E.
+
+  (* C19_saved_cfg_replays / C19_saved_file_replays, on the generated main.  Whenever the translated body of
+     pandora.main ends without raising: the configuration file held a JSON dictionary that check_conf accepts; what
+     main closed is rasters, then ONE text file <output>/./cfg/config.json holding json.dump of the completed
+     configuration as run plus machine.margins.to_dict(); and -- that dictionary being in the JSON subset -- feeding
+     it back is accepted with the same completed configuration, and ANY later run of main on a file holding that text
+     (any environment of the same kind, any output directory) writes the same configuration again, with the margins
+     its own machine reports (equal ones: C20 margins are a function of the checked pipeline). *)
+  Theorem C19_saved_cfg_replays_gen : forall (E : env C T M IMG) cfg_path output verbose fx,
+    env_ok E -> gmain E cfg_path output verbose = Some fx ->
+    exists text user cfg m saved tifs,
+      e_read_file E cfg_path = Some text /\ parse text = Some (JDict user) /\ check_conf user = Some cfg
+      /\ saved = set_key "margins" m (run_rewrites cfg)
+      /\ fx = (tifs ++ [FText (path_join output "./cfg/config.json") (print (JDict saved))])%list
+      /\ (forall e, In e tifs -> is_tif C T e)
+      /\ (text_input_keys_once text = true -> printable (JDict saved) = true ->
+          check_conf saved = Some (run_rewrites cfg)
+          /\ forall (E' : env C T M IMG) cfg_path' output' verbose' fx',
+               env_ok E' -> e_read_file E' cfg_path' = Some (print (JDict saved)) ->
+               gmain E' cfg_path' output' verbose' = Some fx' ->
+               exists tifs' m',
+                 fx' = (tifs' ++ [FText (path_join output' "./cfg/config.json")
+                                        (print (JDict (set_key "margins" m' (run_rewrites cfg))))])%list
+                 /\ (forall e, In e tifs' -> is_tif C T e)).
+  Proof.
+    intros E cfg_path output verbose fx [EP EC] H. rewrite (gen_main rnd C T M IMG E _ _ _ EP) in H.
+    destruct (main_flow_replays rnd C T M IMG otd save_calls gen_defs orc grid_ok images_ok bands_of classes
+                interpolation_methods C19_classes_wf C19_confidence_wf (proj1 C19_scalars_wf) (proj2 C19_scalars_wf)
+                (proj2 C19_plan_wf) E cfg_path output fx EC H)
+      as [text [user [cfg [m [saved [tifs [H1 [H2 [H3 [H4 [H5 [H6 H7]]]]]]]]]]]].
+    exists text, user, cfg, m, saved, tifs. repeat (split; [assumption|]).
+    intros KO Pr. destruct (H7 KO Pr) as [F R]. split; [exact F|].
+    intros E' cfg_path' output' verbose' fx' [EP' EC'] Rd' H'.
+    rewrite (gen_main rnd C T M IMG E' _ _ _ EP') in H'.
+    exact (R E' cfg_path' output' fx' EC' Rd' H').
+  Qed.
+End GenMain.
+
+(* Non-vacuity of the generated functions: the 1x2 product of C19_files_example goes through the translated
+   save_results (5 files under "out"), and an environment built from the models (check_conf = full_check, run
+   returning that product and run_rewrites of cfg) goes through the translated main: 5 rasters, then config.json
+   whose text parses back to the completed configuration with the margins. *)
+Definition ex_left : product (Z * Z) :=
+  mkProduct [[PF None; PF (Some (3 # 2))]] [[PI 1; PI 0]]
+            (Some (["a"; "b"]%string, [[[PF (Some 1%Q); PF None]; [PF (Some 2%Q); PF (Some 3%Q)]]])) (0, 7)%Z.
+Definition ex_right : product (Z * Z) := mkProduct [[PF (Some (-1)%Q); PF None]] [[PI 256; PI 3]] None (1, 8)%Z.
+
+Definition ex_env : env Z Z unit unit :=
+  mkEnv Z Z unit unit
+        (fun _ => Some "{""input"": {""left"": {""img"": ""l.tif"", ""disp"": [-2, 2]}, ""right"": {""img"": ""r.tif""}},
+                        ""pipeline"": {""matching_cost"": {""matching_cost_method"": ""sad""},
+                                     ""disparity"": {""disparity_method"": ""wta""}}}"%string)
+        tt
+        (fun u m => match u with
+                    | JDict ud => match full_check gen_defs open_orc ok2 ok1 d8_bands classes interpolation_methods ud with
+                                  | Some c => Some (JDict c, m) | None => None end
+                    | _ => None end)
+        (fun _ => Some tt) (fun _ _ => Some tt)
+        (fun m _ _ c => match c with JDict cd => Some (Some ex_left, Some ex_right, m, JDict (run_rewrites cd)) | _ => None end)
+        (fun _ => JDict [("left", JInt 1)]%string).
+
+Example C19_gen_example :
+  match SaveFns.main (fun q => q) Z Z unit unit ex_env "cfg.json" "out" false with
+  | Some fx =>
+    map (fun e => match e with FTif f => f_path f | FText p _ => p end) fx
+    = ["out/./left_disparity.tif"; "out/./left_confidence_measure.tif"; "out/./left_validity_mask.tif";
+       "out/./right_disparity.tif"; "out/./right_validity_mask.tif"; "out/./cfg/config.json"]%string
+    /\ match last fx (FText "" "") with
+       | FText _ text => match parse text with
+                         | Some (JDict saved) => lookup "margins" saved = Some (JDict [("left", JInt 1)]%string)
+                                                 /\ List.length saved = 3%nat
+                         | _ => False end
+       | _ => False end
+    /\ map (fun e => match e with FTif f => f_geo f | FText _ _ => (0, 0)%Z end) fx
+       = [(0, 7); (0, 7); (0, 7); (1, 8); (1, 8); (0, 0)]%Z
+  | None => False
+  end.
+Proof. vm_compute. repeat split. Qed.
+
 Print Assumptions C19_plan_wf.
 Print Assumptions C19_files_iff_products.
 Print Assumptions C19_casts_exact.
@@ -371,3 +554,10 @@ Print Assumptions C19_json_roundtrip.
 Print Assumptions C19_saved_file_replays.
 Print Assumptions C19_before_fix_refuted.
 Print Assumptions C19_run_rewrites_idempotent.
+Print Assumptions C19_gen_write_data_array.
+Print Assumptions C19_gen_save_results.
+Print Assumptions C19_gen_save_config.
+Print Assumptions C19_gen_main.
+Print Assumptions C19_files_iff_products_gen.
+Print Assumptions C19_band_bookkeeping_gen.
+Print Assumptions C19_saved_cfg_replays_gen.
